@@ -101,8 +101,16 @@ var c06Targets = []c06Target{
 	{"named []named", func() interface{} { return new(c06Ints) }},
 	{"named []byte", func() interface{} { return new(c06Bytes) }},
 	{"struct of named", func() interface{} { return new(c06Named) }},
+	{"[4]named byte", func() interface{} { return new([4]c06Byte) }},
+	{"[]named byte", func() interface{} { return new([]c06Byte) }},
+	{"annot-struct of [2]named byte", func() interface{} { return new(c06AnnotBytes) }},
 }
 
+type c06Byte uint8
+type c06AnnotBytes struct {
+	A [2]c06Byte
+	B []ion.SymbolToken `ion:",annotations"`
+}
 type c06Key string
 type c06Int int16
 type c06Ints []c06Int
@@ -576,7 +584,7 @@ func init() {
 		Title: "No input can crash, hang or exhaust memory in a Reader, Decoder or Unmarshal",
 		Rule: "inputs, all enumerated exhaustively: (a) the version marker followed by EVERY byte string of length <=2 and every length-3 string over a 48-tag alphabet (thorough: all 2^24), and EVERY text string of length <=3 (thorough 4) over a 37-character alphabet of grammar-significant bytes; (b) hostile symbol tables: 11 slots (symbols, symbols[i], imports, imports[i], name, version, max_id, duplicated fields, unknown fields, annotated slots) x 24 odd values (every typed null, wrong-typed scalars, negative/huge integers) in text and binary, followed by values using the affected IDs, each read without and with a catalog whose tables of those names are shorter or longer than the declared max_id; " +
 			"(c) extreme declared sizes: every type code with L=14 and VarUInt lengths up to 2^63+1 plus EVERY length in the last 48 below 2^64 (position+length wraps) at top level and nested, annotation wrappers whose wrapper length (0..13, VarUInt), annotation-list length (0..12), number of SID bytes present (0..11) and wrapped value disagree in every combination incl. wrapped lengths that balance modulo 2^64, at top level / in a list / in a struct, unterminated/overlong VarUInts, decimal and timestamp-fraction exponents and coefficients at int32/int64 boundaries, symbol IDs / max_id / version beyond int64, text exponents beyond int32, nesting to depth 5000; (d) every position of every seed document x byte substitutions (52 values quick, all 256 thorough) in both formats. " +
-			"Each input under six drivers (full traversal calling ALL 18 accessors on every value, Next only, StepIn/StepOut/refused StepOut, Decoder.Decode loop, Unmarshal into interface{}, Unmarshal into each of 23 typed targets incl. named key/element/slice types). Oracle: no panic (recovered and attributed), no worker death (case announced beforehand), at most 16*len+64 calls per driver (deterministic hang guard), heap allocation <= 1 MiB + 4 KiB per input byte. " +
+			"Each input under six drivers (full traversal calling ALL 18 accessors on every value, Next only, StepIn/StepOut/refused StepOut, Decoder.Decode loop, Unmarshal into interface{}, Unmarshal into each of 26 typed targets incl. named key/element/slice/byte types). Oracle: no panic (recovered and attributed), no worker death (case announced beforehand), at most 16*len+64 calls per driver (deterministic hang guard), heap allocation <= 1 MiB + 4 KiB per input byte. " +
 			"non-trivial = driver ran to completion under all guards; distinct = distinct (family, driver, progress) digests",
 		Bounds:       map[string]string{"quick": "binary len<=2 + 48^3; text len<=3; substitutions on seeds <=120 bytes, 52 values", "thorough": "binary len<=3 all bytes; text len<=4; all seeds, all 256 values"},
 		Assumptions:  []string{"allocation is measured with runtime/metrics /gc/heap/allocs:bytes around the ion-go calls (includes the drivers' own small allocations)", "wall-clock time is never an oracle; a worker that stops making progress is killed by the parent and reported as a hang of the announced case"},
